@@ -903,7 +903,66 @@ def shrink(lines, sig, budget=60):
     return cur
 
 
+
+def lfo_retune_cases(ctx):
+    """An LFO that is retuned while running (LFO.update, Timeline.lfo(name=<existing>), attribute assignment) must follow
+    its NEW frequency / range from the next tick: value = min + (max - min) * (sin(2 pi f t) + 1) / 2 at its own time t, hence
+    within the new [min, max].  Oracle on the implementation alone (closed form, tolerance 1e-9)."""
+    import math
+    common.ensure_repo_on_path()
+    import isobar as iso
+    from isobar.io.output import OutputDevice
+    r = ctx.rng
+    for i in range(ctx.scale(120, 3000)):
+        tpb = r.choice([1, 2, 4, 8, 16, 24, 96, 480])
+        tl = iso.Timeline(output_device=OutputDevice(), clock_source=iso.DummyClock(ticks_per_beat=tpb))
+        f0, lo0, w0 = r.choice([0.25, 0.5, 1, 2, 3]), r.choice([-2.0, 0.0, 1.0, 10.0]), r.choice([0.5, 1.0, 4.0, 100.0])
+        name = "l%d" % i
+        lfo = tl.lfo({"shape": "sine", "frequency": f0, "min": lo0, "max": lo0 + w0}, name=name)
+        cur = dict(frequency=f0, min=lo0, max=lo0 + w0)
+        ticks = 0
+        how_used = []
+        bad = None
+        for seg in range(r.randint(2, 4)):
+            for _ in range(r.randint(1, 3 * tpb + 2)):
+                tl.tick()
+                ticks += 1
+                t = ticks / tpb
+                exp = cur["min"] + (cur["max"] - cur["min"]) * (math.sin(2 * math.pi * cur["frequency"] * t) + 1) / 2
+                v = lfo.value
+                lo, hi = min(cur["min"], cur["max"]), max(cur["min"], cur["max"])
+                if not (lo - 1e-9 <= v <= hi + 1e-9):
+                    bad = ("C18:lfo:out-of-range-after-retune", "value %r outside [%r, %r] at tick %d (tpb %d) after %s" % (v, lo, hi, ticks, tpb, how_used))
+                elif abs(v - exp) > 1e-7 * max(1.0, abs(exp)):
+                    bad = ("C18:lfo:wrong-curve-after-retune", "value %r, closed form %r at tick %d (tpb %d), parameters %r after %s" % (v, exp, ticks, tpb, cur, how_used))
+                if bad:
+                    break
+            if bad:
+                break
+            new = dict(frequency=r.choice([0.25, 0.5, 1, 2, 3]), min=r.choice([-2.0, 0.0, 1.0, 10.0]))
+            new["max"] = new["min"] + r.choice([0.5, 1.0, 4.0, 100.0])
+            how = r.choice(["update", "named", "setattr"])
+            how_used.append(how)
+            if how == "update":
+                lfo.update(new)
+            elif how == "named":
+                got = tl.lfo(dict(new), name=name)
+                if got is not lfo or len(tl.lfos) != 1:
+                    bad = ("C18:lfo:named-update-made-new-lfo", "Timeline.lfo(name=existing) did not update in place")
+                    break
+            else:
+                for k, v in new.items():
+                    setattr(lfo, k, v)
+            cur = new
+        ctx.case(("lfo-retune", tpb, f0, lo0, w0, tuple(how_used), ticks), nontrivial=bool(how_used), validated=False,
+                 sample={"lfo_retune": {"tpb": tpb, "ways": how_used, "ticks": ticks}} if i < 2 else None)
+        ctx.count("lfo-retune:%s" % "+".join(sorted(set(how_used))))
+        if bad:
+            ctx.violation(bad[0], bad[1], {"suite": "lfo-retune", "tpb": tpb, "initial": [f0, lo0, lo0 + w0], "ways": how_used, "ticks": ticks})
+
+
 def run(ctx):
+    lfo_retune_cases(ctx)
     n = ctx.scale(2000, 40000)
     cases = []
     for i in range(n):
